@@ -54,6 +54,15 @@ class Model:
         uses_in = any(isinstance(n, ast.Compare) and isinstance(n.ops[0], (ast.In, ast.NotIn)) for p in paths
                       for g, _ in p.guards for n in ast.walk(g))
         uses_truth = any(isinstance(g, ast.Name) for p in paths for g, _ in p.guards)
+        obj_ = A.params(fn.node)[0]
+        called = {id(c.func) for p in paths for g, _ in p.guards for c in ast.walk(g) if isinstance(c, ast.Call)}
+        attr_names = sorted({n.attr for p in paths for g, _ in p.guards for n in ast.walk(g)
+                             if isinstance(n, ast.Attribute) and isinstance(n.value, ast.Name) and n.value.id == obj_
+                             and id(n) not in called})
+        if attr_names:
+            # guards on fields of the value (a slice's start/stop/step): None, a falsy non-None value and a truthy one for each
+            import itertools as _it
+            return [{"attrs": dict(zip(attr_names, combo))} for combo in _it.product((None, 0, 5), repeat=len(attr_names))]
         vals = []
         pts = {0, 1, 2, 3, 4, 5, 6, 17, 254, 255, 256, 257, 65535, 65536, 70000, 2 ** 32 - 1}
         for c in consts:
@@ -646,4 +655,6 @@ def _valdesc(val):
         return "len %d" % val["len"]
     if "truth" in val:
         return "truth %s" % val["truth"]
+    if "attrs" in val:
+        return ", ".join("%s=%r" % kv for kv in sorted(val["attrs"].items()))
     return "any"
